@@ -9,6 +9,7 @@ import (
 	"crypto/sha256"
 	"crypto/x509"
 	"fmt"
+	"net"
 	"slices"
 	"time"
 
@@ -406,6 +407,11 @@ func authenticateTLSCert(
 		}
 	case c.TLSSubAlternativeName != "":
 		if !slices.Contains(cert.DNSNames, c.TLSSubAlternativeName) {
+			return goidc.NewError(goidc.ErrorCodeInvalidClient, "invalid alternative name")
+		}
+	case c.TLSSubAlternativeNameIp != "":
+		ip := net.ParseIP(c.TLSSubAlternativeNameIp)
+		if ip == nil || !slices.ContainsFunc(cert.IPAddresses, ip.Equal) {
 			return goidc.NewError(goidc.ErrorCodeInvalidClient, "invalid alternative name")
 		}
 	default:
